@@ -2,6 +2,20 @@
 // contract: take an ARBITRARY state satisfying the representation invariant (not a scripted history),
 // assume the precondition, call the real function, assert invariant + postcondition.  Every conjunct
 // is its own assertion whose message starts with the property tags it serves.
+// Non-blocking check: Kani's `assert!` assumes its condition afterwards, so the first failing conjunct of a contract
+// would hide every later one on the same path (and with it the verdicts of the other properties that harness serves).
+// `ck!` performs the check on a nondeterministically chosen side branch, so every conjunct is reported independently.
+macro_rules! ck {
+    ($c:expr, $m:literal) => {
+        if kani::any::<bool>() {
+            assert!($c, $m);
+        }
+    };
+    ($c:expr) => {
+        assert!($c)
+    };
+}
+
 use super::*;
 use crate::verif_hooks::spec::*;
 use crate::verif_hooks::PoisonHasher;
@@ -28,17 +42,17 @@ fn builder_sound() {
     kani::cover!(a.n == 0 && a.cap == 0, "builder: capacity 0");
     let l: Lru = build(&a, PoisonHasher, None);
     let (b, wf) = l.verif_check();
-    assert!(wf, "[C03.builder] every state the builder produces satisfies the representation invariant");
-    assert!(b == a, "[C03.builder] every state the builder produces has exactly the intended view");
+    ck!(wf, "[C03.builder] every state the builder produces satisfies the representation invariant");
+    ck!(b == a, "[C03.builder] every state the builder produces has exactly the intended view");
     core::mem::forget(l);
 }
 
 macro_rules! inv {
     ($l:expr, $wf:expr, $post:expr) => {
-        assert!($wf, "[C03.wf] list is a well-formed chain between its sentinels matching its index");
-        assert!($post.n <= $post.cap, "[C01.cap] resident count within capacity");
-        assert!($l.len() == $post.n, "[C01.len] len() equals the number of linked entries");
-        assert!($l.is_empty() == ($post.n == 0), "[C01.empty] is_empty() iff nothing retained");
+        ck!($wf, "[C03.wf] list is a well-formed chain between its sentinels matching its index");
+        ck!($post.n <= $post.cap, "[C01.cap] resident count within capacity");
+        ck!($l.len() == $post.n, "[C01.len] len() equals the number of linked entries");
+        ck!($l.is_empty() == ($post.n == 0), "[C01.empty] is_empty() iff nothing retained");
     };
 }
 
@@ -58,11 +72,11 @@ fn put() {
     let (post, wf) = l.verif_check();
     let (exp, exp_r) = spec_lru_put(&pre, k, v);
     inv!(l, wf, post);
-    assert!(pr_of(&r) == exp_r, "[C12.result][C06.victim] put reports Put/Update(old)/Evicted(true LRU) truthfully");
-    assert!(post.same_map(&exp), "[C02.map][C12.delta] retained map changed by exactly +k, -reported entry");
-    assert!(pre.cap == 0 || post.val_of(k) == Some(v), "[C02.value][C12.resident] after put(k,v) k is resident with v");
-    assert!(post.view_eq(&exp), "[C06.order] put moves k to the front and keeps the order of the rest");
-    assert!(post.cap == pre.cap, "[C01.cap] capacity unchanged by put");
+    ck!(pr_of(&r) == exp_r, "[C12.result][C06.victim] put reports Put/Update(old)/Evicted(true LRU) truthfully");
+    ck!(post.same_map(&exp), "[C02.map][C12.delta] retained map changed by exactly +k, -reported entry");
+    ck!(pre.cap == 0 || post.val_of(k) == Some(v), "[C02.value][C12.resident] after put(k,v) k is resident with v");
+    ck!(post.view_eq(&exp), "[C06.order] put moves k to the front and keeps the order of the rest");
+    ck!(post.cap == pre.cap, "[C01.cap] capacity unchanged by put");
     core::mem::forget(l);
 }
 
@@ -78,13 +92,13 @@ fn get() {
     let r = l.get(&k).copied();
     let (post, wf) = l.verif_check();
     inv!(l, wf, post);
-    assert!(r == pre.val_of(k), "[C02.lookup] get returns exactly the stored value, None iff absent");
+    ck!(r == pre.val_of(k), "[C02.lookup] get returns exactly the stored value, None iff absent");
     let exp = match pre.pos(k) {
         Some(i) => pre.touch(i, None),
         None => pre,
     };
-    assert!(post.same_map(&exp), "[C02.map] get does not change the key->value map");
-    assert!(post.view_eq(&exp), "[C06.order] get moves the hit entry to the front, keeps the rest");
+    ck!(post.same_map(&exp), "[C02.map] get does not change the key->value map");
+    ck!(post.view_eq(&exp), "[C06.order] get moves the hit entry to the front, keeps the rest");
     core::mem::forget(l);
 }
 
@@ -106,13 +120,13 @@ fn get_mut() {
     };
     let (post, wf) = l.verif_check();
     inv!(l, wf, post);
-    assert!(r == pre.val_of(k), "[C02.lookup] get_mut hands out the stored value, None iff absent");
+    ck!(r == pre.val_of(k), "[C02.lookup] get_mut hands out the stored value, None iff absent");
     let exp = match pre.pos(k) {
         Some(i) => pre.touch(i, Some(w)),
         None => pre,
     };
-    assert!(post.same_map(&exp), "[C02.write] a write through get_mut lands in that entry and nowhere else");
-    assert!(post.view_eq(&exp), "[C06.order] get_mut moves the hit entry to the front, keeps the rest");
+    ck!(post.same_map(&exp), "[C02.write] a write through get_mut lands in that entry and nowhere else");
+    ck!(post.view_eq(&exp), "[C06.order] get_mut moves the hit entry to the front, keeps the rest");
     core::mem::forget(l);
 }
 
@@ -130,10 +144,10 @@ fn peek_contains() {
     let r2 = l.peek_(&k).copied();
     let (post, wf) = l.verif_check();
     inv!(l, wf, post);
-    assert!(r == pre.val_of(k) && r2 == r, "[C02.lookup] peek returns exactly the stored value, None iff absent");
-    assert!(c == pre.has(k), "[C02.lookup] contains agrees with residency");
-    assert!(post == pre, "[C13.readonly][C06.nouse] peek/contains leave the view (order, values, cap) unchanged");
-    assert!(l.cap() == pre.cap && l.len() == pre.n, "[C13.readonly] len/cap are pure");
+    ck!(r == pre.val_of(k) && r2 == r, "[C02.lookup] peek returns exactly the stored value, None iff absent");
+    ck!(c == pre.has(k), "[C02.lookup] contains agrees with residency");
+    ck!(post == pre, "[C13.readonly][C06.nouse] peek/contains leave the view (order, values, cap) unchanged");
+    ck!(l.cap() == pre.cap && l.len() == pre.n, "[C13.readonly] len/cap are pure");
     core::mem::forget(l);
 }
 
@@ -158,13 +172,13 @@ fn peek_mut() {
     let r2 = l.peek_mut_(&k).map(|v| *v);
     let (post, wf) = l.verif_check();
     inv!(l, wf, post);
-    assert!(r == pre.val_of(k), "[C02.lookup] peek_mut hands out the stored value, None iff absent");
+    ck!(r == pre.val_of(k), "[C02.lookup] peek_mut hands out the stored value, None iff absent");
     let exp = match (pre.pos(k), w) {
         (Some(i), Some(w)) => pre.with_val(i, w),
         _ => pre,
     };
-    assert!(r2 == exp.val_of(k), "[C02.write] value written through peek_mut is what later reads return");
-    assert!(post == exp, "[C13.readonly][C06.nouse][C02.write] peek_mut changes nothing but the written value");
+    ck!(r2 == exp.val_of(k), "[C02.write] value written through peek_mut is what later reads return");
+    ck!(post == exp, "[C13.readonly][C06.nouse][C02.write] peek_mut changes nothing but the written value");
     core::mem::forget(l);
 }
 
@@ -180,15 +194,15 @@ fn remove() {
     let r = l.remove(&k);
     let (post, wf) = l.verif_check();
     inv!(l, wf, post);
-    assert!(r == pre.val_of(k), "[C02.remove] remove hands back the stored value, None iff absent");
+    ck!(r == pre.val_of(k), "[C02.remove] remove hands back the stored value, None iff absent");
     let exp = match pre.pos(k) {
         Some(i) => pre.remove_at(i),
         None => pre,
     };
-    assert!(!post.has(k), "[C02.absent] a removed key is no longer resident");
-    assert!(post.same_map(&exp), "[C02.map] remove takes out exactly that entry");
-    assert!(post.view_eq(&exp), "[C06.order] remove keeps the order of the remaining entries");
-    assert!(!l.contains(&k) && l.peek(&k).is_none(), "[C02.absent] lookups agree the key is gone");
+    ck!(!post.has(k), "[C02.absent] a removed key is no longer resident");
+    ck!(post.same_map(&exp), "[C02.map] remove takes out exactly that entry");
+    ck!(post.view_eq(&exp), "[C06.order] remove keeps the order of the remaining entries");
+    ck!(!l.contains(&k) && l.peek(&k).is_none(), "[C02.absent] lookups agree the key is gone");
     core::mem::forget(l);
 }
 
@@ -214,9 +228,9 @@ fn get_lru_variants() {
     };
     let (post, wf) = l.verif_check();
     inv!(l, wf, post);
-    assert!(r == pre.last(), "[C06.lru] get_lru/get_lru_mut name the least recently used entry");
+    ck!(r == pre.last(), "[C06.lru] get_lru/get_lru_mut name the least recently used entry");
     let exp = if pre.n == 0 { pre } else { pre.touch(pre.n - 1, if mutable { Some(w) } else { None }) };
-    assert!(post.view_eq(&exp), "[C06.order][C02.write] get_lru(_mut) is a use: entry moves to the front, write lands in it");
+    ck!(post.view_eq(&exp), "[C06.order][C02.write] get_lru(_mut) is a use: entry moves to the front, write lands in it");
     core::mem::forget(l);
 }
 
@@ -235,10 +249,10 @@ fn mru_lru_peeks() {
     let f = l.get_mru_mut().map(|(k, v)| (*k, *v));
     let (post, wf) = l.verif_check();
     inv!(l, wf, post);
-    assert!(a == pre.last() && d == pre.last(), "[C06.lru] peek_lru(_mut) name the least recently used entry");
-    assert!(b == pre.first() && c == pre.first() && e == pre.first() && f == pre.first(),
+    ck!(a == pre.last() && d == pre.last(), "[C06.lru] peek_lru(_mut) name the least recently used entry");
+    ck!(b == pre.first() && c == pre.first() && e == pre.first() && f == pre.first(),
         "[C06.mru] peek_mru(_mut)/get_mru(_mut) name the most recently used entry");
-    assert!(post == pre, "[C13.readonly][C06.nouse] peek_lru/peek_mru/get_mru variants leave the view unchanged");
+    ck!(post == pre, "[C13.readonly][C06.nouse] peek_lru/peek_mru/get_mru variants leave the view unchanged");
     core::mem::forget(l);
 }
 
@@ -260,7 +274,7 @@ fn mru_lru_mut_writes() {
     };
     let (post, wf) = l.verif_check();
     inv!(l, wf, post);
-    assert!(post == pre.with_val(at, w), "[C02.write][C06.nouse] write through peek_lru_mut/peek_mru_mut/get_mru_mut lands in that entry, order unchanged");
+    ck!(post == pre.with_val(at, w), "[C02.write][C06.nouse] write through peek_lru_mut/peek_mru_mut/get_mru_mut lands in that entry, order unchanged");
     core::mem::forget(l);
 }
 
@@ -288,13 +302,13 @@ fn or_put_variants() {
     let (post, wf) = l.verif_check();
     inv!(l, wf, post);
     if pre.has(k) {
-        assert!(seen == pre.val_of(k) && r.is_none(), "[C02.lookup][C12.result] *_or_put on a present key peeks: stored value, no PutResult");
-        assert!(post == pre, "[C13.readonly][C06.nouse] *_or_put on a present key leaves the view unchanged");
+        ck!(seen == pre.val_of(k) && r.is_none(), "[C02.lookup][C12.result] *_or_put on a present key peeks: stored value, no PutResult");
+        ck!(post == pre, "[C13.readonly][C06.nouse] *_or_put on a present key leaves the view unchanged");
     } else {
         let (exp, exp_r) = spec_lru_put(&pre, k, v);
-        assert!(seen.is_none() && r == Some(exp_r), "[C12.result][C06.victim] *_or_put on an absent key reports exactly what put reports");
-        assert!(post.same_map(&exp), "[C02.map][C12.delta] *_or_put on an absent key changes the map exactly as put does");
-        assert!(post.view_eq(&exp), "[C06.order] *_or_put on an absent key is exactly put");
+        ck!(seen.is_none() && r == Some(exp_r), "[C12.result][C06.victim] *_or_put on an absent key reports exactly what put reports");
+        ck!(post.same_map(&exp), "[C02.map][C12.delta] *_or_put on an absent key changes the map exactly as put does");
+        ck!(post.view_eq(&exp), "[C06.order] *_or_put on an absent key is exactly put");
     }
     core::mem::forget(l);
 }
@@ -311,9 +325,9 @@ fn remove_lru() {
     let r = l.remove_lru();
     let (post, wf) = l.verif_check();
     inv!(l, wf, post);
-    assert!(r == pre.last(), "[C06.lru][C02.remove] remove_lru returns the least recently used pair, None iff empty");
+    ck!(r == pre.last(), "[C06.lru][C02.remove] remove_lru returns the least recently used pair, None iff empty");
     let exp = if pre.n == 0 { pre } else { pre.drop_last() };
-    assert!(post.view_eq(&exp), "[C06.order][C02.map] remove_lru takes out exactly the last entry");
+    ck!(post.view_eq(&exp), "[C06.order][C02.map] remove_lru takes out exactly the last entry");
     core::mem::forget(l);
 }
 
@@ -326,9 +340,9 @@ fn purge() {
     l.purge();
     let (post, wf) = l.verif_check();
     inv!(l, wf, post);
-    assert!(post == Abs::empty(pre.cap), "[C06.purge][C02.absent][C01.cap] purge leaves an empty cache with the same capacity");
+    ck!(post == Abs::empty(pre.cap), "[C06.purge][C02.absent][C01.cap] purge leaves an empty cache with the same capacity");
     let j: u8 = kani::any();
-    assert!(!l.contains(&j), "[C02.absent] nothing is resident after purge");
+    ck!(!l.contains(&j), "[C02.absent] nothing is resident after purge");
     core::mem::forget(l);
 }
 
@@ -346,9 +360,9 @@ fn resize() {
     let (post, wf) = l.verif_check();
     inv!(l, wf, post);
     let dropped = if pre.n > c { pre.n - c } else { 0 };
-    assert!(r == dropped as u64, "[C06.resize] resize returns max(0, len - n)");
-    assert!(post.view_eq(&pre.truncate(c).with_cap(c)), "[C06.resize][C06.order][C01.cap] resize keeps the most recent min(len, n) entries in order and sets the capacity");
-    assert!(l.cap() == c, "[C06.resize][C01.cap] the new capacity is enforced from then on");
+    ck!(r == dropped as u64, "[C06.resize] resize returns max(0, len - n)");
+    ck!(post.view_eq(&pre.truncate(c).with_cap(c)), "[C06.resize][C06.order][C01.cap] resize keeps the most recent min(len, n) entries in order and sets the capacity");
+    ck!(l.cap() == c, "[C06.resize][C01.cap] the new capacity is enforced from then on");
     core::mem::forget(l);
 }
 
@@ -369,8 +383,8 @@ fn resize_then_put() {
     let (post, wf) = l.verif_check();
     inv!(l, wf, post);
     let (exp, exp_r) = spec_lru_put(&mid, k, v);
-    assert!(pr_of(&r) == exp_r, "[C12.result][C12.cap0] put after resize reports truthfully (capacity 0 hands the pair back as Evicted)");
-    assert!(post.view_eq(&exp), "[C06.order][C06.resize] the resized capacity is enforced by the next put");
+    ck!(pr_of(&r) == exp_r, "[C12.result][C12.cap0] put after resize reports truthfully (capacity 0 hands the pair back as Evicted)");
+    ck!(post.view_eq(&exp), "[C06.order][C06.resize] the resized capacity is enforced by the next put");
     core::mem::forget(l);
 }
 
@@ -385,13 +399,13 @@ fn ctor_with_hasher() {
     kani::cover!(cap == usize::MAX, "ctor: usize::MAX");
     match RawLRU::<u8, u8, DefaultEvictCallback, PoisonHasher>::with_hasher(cap, PoisonHasher) {
         Ok(l) => {
-            assert!(cap != 0, "[C05.ctor] zero capacity is rejected");
+            ck!(cap != 0, "[C05.ctor] zero capacity is rejected");
             let a = l.verif_abs();
-            assert!(l.verif_wf() && a == Abs::empty(cap), "[C05.ctor][C03.wf][C01.cap] a fresh cache is empty, well formed, with the requested capacity");
-            assert!(l.cap() == cap && l.len() == 0 && l.is_empty(), "[C01.len] fresh cache reports cap, len 0, empty");
+            ck!(l.verif_wf() && a == Abs::empty(cap), "[C05.ctor][C03.wf][C01.cap] a fresh cache is empty, well formed, with the requested capacity");
+            ck!(l.cap() == cap && l.len() == 0 && l.is_empty(), "[C01.len] fresh cache reports cap, len 0, empty");
         }
         Err(e) => {
-            assert!(cap == 0 && e == CacheError::InvalidSize(0), "[C05.ctor] Err(InvalidSize(0)) exactly for capacity 0");
+            ck!(cap == 0 && e == CacheError::InvalidSize(0), "[C05.ctor] Err(InvalidSize(0)) exactly for capacity 0");
         }
     }
 }
@@ -409,11 +423,11 @@ fn ctor_with_cb_and_hasher() {
     let cap: usize = kani::any();
     match RawLRU::<u8, u8, NopCb, PoisonHasher>::with_on_evict_cb_and_hasher(cap, NopCb, PoisonHasher) {
         Ok(l) => {
-            assert!(cap != 0, "[C05.ctor] zero capacity is rejected");
-            assert!(l.verif_wf() && l.verif_abs() == Abs::empty(cap), "[C05.ctor][C03.wf] fresh cache with callback is empty and well formed");
+            ck!(cap != 0, "[C05.ctor] zero capacity is rejected");
+            ck!(l.verif_wf() && l.verif_abs() == Abs::empty(cap), "[C05.ctor][C03.wf] fresh cache with callback is empty and well formed");
         }
         Err(e) => {
-            assert!(cap == 0 && e == CacheError::InvalidSize(0), "[C05.ctor] Err(InvalidSize(0)) exactly for capacity 0");
+            ck!(cap == 0 && e == CacheError::InvalidSize(0), "[C05.ctor] Err(InvalidSize(0)) exactly for capacity 0");
         }
     }
 }
@@ -442,8 +456,8 @@ fn put_nonnull() {
     let (post, wf) = l.verif_check();
     inv!(l, wf, post);
     let (exp, exp_r) = spec_lru_put(&pre, k, v);
-    assert!(pr_of(&r) == exp_r, "[C12.result][C04.handover] put_nonnull frees and reports the displaced LRU entry, Put otherwise");
-    assert!(post.view_eq(&exp), "[C01.cap][C03.handover] put_nonnull links the node at the front, evicting the LRU entry when full");
+    ck!(pr_of(&r) == exp_r, "[C12.result][C04.handover] put_nonnull frees and reports the displaced LRU entry, Put otherwise");
+    ck!(post.view_eq(&exp), "[C01.cap][C03.handover] put_nonnull links the node at the front, evicting the LRU entry when full");
     core::mem::forget(l);
 }
 
@@ -461,17 +475,17 @@ fn put_or_evict_nonnull() {
     inv!(l, wf, post);
     let (exp, exp_r) = spec_lru_put(&pre, k, v);
     match r {
-        None => assert!(exp_r == PR::Put, "[C03.handover] no node is displaced while there is room"),
+        None => ck!(exp_r == PR::Put, "[C03.handover] no node is displaced while there is room"),
         Some(n) => {
             let (ek, ev) = node_kv(n);
-            assert!(exp_r == PR::Evicted(ek, ev), "[C03.handover][C04.handover] the displaced node is the LRU entry, handed back intact");
+            ck!(exp_r == PR::Evicted(ek, ev), "[C03.handover][C04.handover] the displaced node is the LRU entry, handed back intact");
             unsafe {
-                assert!(!post.has(ek), "[C03.handover] the displaced node is no longer indexed");
+                ck!(!post.has(ek), "[C03.handover] the displaced node is no longer indexed");
                 drop(Box::from_raw(n.as_ptr()));
             }
         }
     }
-    assert!(post.view_eq(&exp), "[C01.cap][C03.handover] put_or_evict_nonnull links the node at the front");
+    ck!(post.view_eq(&exp), "[C01.cap][C03.handover] put_or_evict_nonnull links the node at the front");
     core::mem::forget(l);
 }
 
@@ -487,12 +501,12 @@ fn remove_and_return_ent() {
     inv!(l, wf, post);
     match (r, pre.pos(k)) {
         (Some(n), Some(i)) => {
-            assert!(node_kv(n) == (k, pre.v[i]), "[C03.handover][C02.remove] the node handed out carries the key and its stored value");
-            assert!(post.view_eq(&pre.remove_at(i)), "[C03.handover] node unlinked and unindexed, rest unchanged");
+            ck!(node_kv(n) == (k, pre.v[i]), "[C03.handover][C02.remove] the node handed out carries the key and its stored value");
+            ck!(post.view_eq(&pre.remove_at(i)), "[C03.handover] node unlinked and unindexed, rest unchanged");
             unsafe { drop(Box::from_raw(n.as_ptr())) };
         }
-        (None, None) => assert!(post == pre, "[C03.handover] miss leaves the list unchanged"),
-        _ => assert!(false, "[C03.handover][C02.lookup] remove_and_return_ent finds exactly the resident keys"),
+        (None, None) => ck!(post == pre, "[C03.handover] miss leaves the list unchanged"),
+        _ => ck!(false, "[C03.handover][C02.lookup] remove_and_return_ent finds exactly the resident keys"),
     }
     core::mem::forget(l);
 }
@@ -508,11 +522,11 @@ fn remove_lru_in() {
     inv!(l, wf, post);
     match r {
         Some(n) => {
-            assert!(Some(node_kv(n)) == pre.last(), "[C03.handover][C06.lru] remove_lru_in hands out the LRU node intact");
-            assert!(post.view_eq(&pre.drop_last()), "[C03.handover] LRU node unlinked and unindexed");
+            ck!(Some(node_kv(n)) == pre.last(), "[C03.handover][C06.lru] remove_lru_in hands out the LRU node intact");
+            ck!(post.view_eq(&pre.drop_last()), "[C03.handover] LRU node unlinked and unindexed");
             unsafe { drop(Box::from_raw(n.as_ptr())) };
         }
-        None => assert!(pre.n == 0 && post == pre, "[C03.handover] None iff the list is empty"),
+        None => ck!(pre.n == 0 && post == pre, "[C03.handover] None iff the list is empty"),
     }
     core::mem::forget(l);
 }
@@ -530,7 +544,7 @@ fn update_in_place() {
     l.update(&mut v, nodes[i]);
     let (post, wf) = l.verif_check();
     inv!(l, wf, post);
-    assert!(v == pre.v[i], "[C02.value][C12.result] update swaps out the previously stored value");
-    assert!(post.view_eq(&pre.touch(i, Some(v0))), "[C02.write][C06.order] update stores the new value and moves the entry to the front");
+    ck!(v == pre.v[i], "[C02.value][C12.result] update swaps out the previously stored value");
+    ck!(post.view_eq(&pre.touch(i, Some(v0))), "[C02.write][C06.order] update stores the new value and moves the entry to the front");
     core::mem::forget(l);
 }
